@@ -250,7 +250,13 @@ def run_fixed(desc):
             for extra in (0, G.FORCEWIN, G.FORCEUNIX, G.FORCEWIN | G.FORCEUNIX):
                 out.evaluations += 1
                 for meth in ('globmatch', 'match', 'full_match'):
-                    got = getattr(cls(name), meth)(pat, flags=extra)
+                    try:
+                        got = getattr(cls(name), meth)(pat, flags=extra)
+                    except Exception as e:
+                        out.violation({'mode': 'fixed', 'call': '%s(%r).%s(%r, flags=%d)' % (cls.__name__, name, meth, pat, extra),
+                                       'impl': type(e).__name__, 'want': want, 'problem': 'platform flags given by the user are not ignored'},
+                                      bucket=('platform', cls.__name__, extra))
+                        continue
                     if bool(got) != want:
                         out.violation({'mode': 'fixed', 'call': '%s(%r).%s(%r, flags=%d)' % (cls.__name__, name, meth, pat, extra), 'impl': bool(got),
                                        'want': want, 'problem': 'platform rules are fixed by the path class'}, bucket=('platform', cls.__name__, extra))
